@@ -118,7 +118,7 @@ type netSim struct {
 	perNode map[int]nodeLimits // per-node overrides of the size limits (by node id)
 	// defaultConns: addresses configured as the network's default (trusted) peers
 	defaultConns []string
-	linkSeq int
+	linkSeq      int
 	// monitor is called for every frame a real node puts on the wire
 	monitor func(from *netNode, l *link, frame []byte)
 	// disconnect observer
